@@ -909,6 +909,8 @@ func TestSeeds(t *testing.T) {
 		{`null`, `"a\\d1" | split("\\d"), ("x\\" | split("\\")), ("a.b\\c" | split(".")), ("\\\\" | split("\\"))`, "split1-backslash-separator"},
 		{`null`, `"{\"b\":1,\"a\":2,\"c\":3,\"d\":4,\"e\":5}" | fromjson | keys, [.[]], to_entries, [paths], [tostream], tojson`, "fromjson-object-key-order"},
 		{`null`, `"{\"z\":{\"y\":1,\"x\":2,\"w\":3},\"m\":[{\"b\":1,\"a\":2}]}" | fromjson | [..], [paths], (.m[0] | keys, to_entries), ([.z[]] | add)`, "fromjson-object-key-order"},
+		{`{"_error":{"error":"x"},"a":1}`, `tojson | fromjson`, "fromjson-document-with-_error-key"},
+		{`null`, `"{\"_error\":1}" | fromjson | ._error`, "fromjson-document-with-_error-key"},
 		{`"nan"`, `split(@base64d)`, ""},
 		{`"true"`, `@base64d | split(tojson | fromjson)`, ""},
 		{`null`, `"1" | fromjson | .a`, ""},
